@@ -44,6 +44,19 @@ def _mk_dist_event(off, soff):
     return distribution(wrap_sampler(sampler, name=f"trie{off}{soff}"), wrap_logpdf(logpdf), name=f"trie{off}{soff}")
 
 
+def _mk_dist_event_real(off):
+    """the event-shaped tri-distribution with REAL randomness (one categorical per coordinate, one summed log density)."""
+    from genjax import categorical
+
+    def sampler(script, par, **kw):
+        return categorical.sample(ROWS[(par + off) % K], **kw)
+
+    def logpdf(x, script, par):
+        return jnp.sum(categorical.logpdf(x, ROWS[(par + off) % K]), axis=-1)
+
+    return distribution(sampler, logpdf, name=f"trie{off}real")
+
+
 def ev(e, arg, env):
     op = e[0]
     if op == "arg":
@@ -115,7 +128,7 @@ class Builder:
         elif k == "vmap" and G.get("as_site") and G.get("as_event"):
             # an event-shaped address: vector value, ONE log density
             C = self.GF[G["callee"]]
-            out = _mk_dist_event(C["off"], C["soff"])
+            out = _mk_dist_event_real(C["off"]) if self.real else _mk_dist_event(C["off"], C["soff"])
         elif k == "vmap" and G.get("as_site"):
             # an array-valued address: the callee distribution called once with vector parameters
             out = self.build(G["callee"])
